@@ -291,6 +291,32 @@ def file_shapes(ctx, lua, rng, count):
                     ctx.violation('code brought in by #include %s does not carry the included cart\'s bytes' % target,
                                   {'kind': 'file', 'code': inc_code})
                     return
+    # (d) the layout of the file around the code: the Lua section last, first, alone (code-only carts as PICO-8 saves them)
+    from .. import refcodec as rc, carts
+    from pico8.game.formatter.p8 import P8Formatter
+    for j in range(count):
+        code = b'--' + bytes(b for b in rng.sample(list(allglyph), 50) if b not in (10, 13)) + b'\ns="' + bytes(
+            rng.choice(three + multi) for _ in range(30)) + b'"\nx=1\n'
+        regions, _ = carts.random_regions(rng, 'zero')
+        layouts = {'lua_last': dict(order=['gfx', 'gff', 'map', 'sfx', 'music', 'lua']),
+                   'lua_only': dict(omit=('gfx', 'gff', 'map', 'sfx', 'music')),
+                   'lua_middle': dict(order=['gfx', 'lua', 'map', 'gff', 'sfx', 'music']),
+                   'lua_last_no_final_newline': dict(order=['gfx', 'lua'], omit=('gff', 'map', 'sfx', 'music'))}
+        for lname, kw in layouts.items():
+            data = rc.write_p8(regions, code, version=(8, 33)[j % 2], **kw)
+            if lname.endswith('no_final_newline'):
+                data = data.rstrip(b'\n')
+            ctx.case(code + lname.encode())
+            try:
+                got = b''.join(P8Formatter.from_file(io.BytesIO(data)).lua.to_lines())
+            except Exception as e:
+                ctx.violation('reading a .p8 file whose Lua section is placed %s raised %r' % (lname, e), {'kind': 'file', 'code': code})
+                return
+            ctx.monitor('file_roundtrips')
+            ctx.feature('file_layout_' + lname)
+            if got.rstrip(b'\n') != code.rstrip(b'\n'):
+                ctx.violation('reading a .p8 file whose Lua section is placed %s changed code bytes' % lname, {'kind': 'file', 'code': code})
+                return
     ctx.feature('file_shapes_done')
 
 
@@ -343,7 +369,7 @@ def gates(m, tier):
     if mon.get('file_roundtrips', 0) < 1:
         missed.append('.p8 path never exercised')
     for k in ('file_version_0', 'file_version_33', 'file_entry_stream', 'file_entry_path', 'file_entry_cli', 'history_done', 'file_shapes_done',
-              'line_over_64k_utf8_bytes', 'multiline_token_cases_echo', 'multiline_token_cases_luamin', 'include_cases_p8'):
+              'line_over_64k_utf8_bytes', 'multiline_token_cases_echo', 'multiline_token_cases_luamin', 'include_cases_p8', 'file_layout_lua_last', 'file_layout_lua_only'):
         if f.get(k, 0) < 1:
             missed.append('%s never seen' % k)
     if mon.get('foreign_conversions', 0) < 20:
